@@ -137,11 +137,16 @@ def succession (c : Chain) (b : Blk) : StoreRes :=
   else if b.parent != expParent then .parentMismatch
   else .stored
 
+/-- `if s.currReorg != nil { s.reorgFeed.Send(s.currReorg) }` -/
+def reorgObs : Option Range → List Obs
+  | some r => [Obs.reorg r]
+  | none => []
+
 /-- success branch of `storeTask` -/
 def onStored (n : Node) (b : Blk) : Node × List Obs :=
   ({ chain := b :: n.chain, reorg := none },
    [Obs.stored b.num b.hash]
-     ++ (match n.reorg with | some r => [Obs.reorg r] | none => [])
+     ++ reorgObs n.reorg
      ++ [Obs.newHead b.num b.hash])
 
 /-- `revertHead(localHeader)`; `revOk` = `RevertHead()` returned nil. -/
@@ -361,9 +366,7 @@ def Spec.step (s : Spec) : SEv → Except Reject Spec
       | none => .error .storedNotSuccessor
       | some rb =>
         .ok { s with chain := rb.2 :: s.chain, pending := [],
-                     owed := s.owed ++ (match rangeOf s.pending with
-                                        | some r => [Obs.reorg r] | none => [])
-                                    ++ [Obs.newHead num hash] }
+                     owed := s.owed ++ reorgObs (rangeOf s.pending) ++ [Obs.newHead num hash] }
   | .obs (.reverted num hash) =>
     match s.chain with
     | [] => .error .revertNotHead
